@@ -41,7 +41,7 @@ TRUSTED = ["models: coq/theories/GPOps.v (+ Tree.v TreeIdx.v RandomPrims.v); che
            "termination of the rejection / growth loops (fuel = number of draws supplied)"]
 THEORIES = ["Base", "RandomPrims", "RandomPrimsProofs", "RandomPrimsProofs2", "Tree", "TreeIdx", "TreeEval",
             "TreeProofs", "TreeProofs2", "TreeCR", "C11Check", "C09Check", "GPOps", "GPOpsProofs",
-            "GPOpsProofs2", "GPOpsProofs3", "GPOpsProofs4", "GPOpsProofs5", "C08Check"]
+            "GPOpsProofs2", "GPOpsProofs3", "GPOpsProofs4", "GPOpsProofs5", "TreeCRk", "GPOpsProofs6", "C08Check"]
 IMPORTS = ("From Coq Require Import List Arith ZArith QArith.\n"
            "From TF Require Import Base RandomPrims Tree TreeIdx GPOps C09Check C08Check.\nOpen Scope nat_scope.")
 CTYPE = ("nat * list (ptree sy) * (list Q * list Q) * (nat * nat * Q) * uni * list draw * option (list (ptree sy))")
